@@ -736,6 +736,38 @@ def execute(plan):
                 log.append(("hw", tag, enc, o["kind"], o["where"]))
                 viol.add("C08", "output_list_runs", o["kind"], o["where"], "%s: %s" % (o["kind"], o["exc"]))
             hist.setdefault(key, None)
+    # --- a history of short-lived circuits of different register sizes, each parsed against
+    # hardware output and dropped at once (C15: each must be interpreted on its own terms)
+    if hist.get(("A", plan["hw_encoding"])) is not None and scratch is None:
+        from jaqalpaq.parser import parse_jaqal_string as _p
+
+        def short_lived():
+            out = []
+            for rep in range(2):
+                small = _p("register z[1]\nprepare_all\nmeasure_all\n", inject_pulses=G, autoload_pulses=False)
+                r1 = parse_jaqal_output_list(small, [1])
+                out.append(("small", [(x.as_int, x.as_str) for x in r1.readouts], [len(sc.relative_frequency_by_int) for sc in r1.subcircuits], [list(sc.relative_frequency_by_str) for sc in r1.subcircuits]))
+                del small, r1
+                big = parse_with(plan, texts[0][1], G, plan["pipeline"] if plan["pipeline"] not in ("autoload", "run_string", "run_file") else "plain")
+                r2 = parse_jaqal_output_list(big, list(enc_lists[plan["hw_encoding"]]))
+                out.append(("big", [(x.as_int, x.subcircuit.index) for x in r2.readouts], [len(sc.relative_frequency_by_int) for sc in r2.subcircuits]))
+                del big, r2
+            return out
+
+        osl = seams.outcome_of(short_lived, clock, 6 * budget)
+        if osl["kind"] != "ok":
+            viol.add("C15", "hardware_short_lived_circuits", osl["kind"], osl.get("where", ""), str(osl.get("exc")))
+        else:
+            for item in osl["value"]:
+                if item[0] == "small":
+                    if item[1] != [(1, "1")] or item[2] != [2] or item[3] != [["0", "1"]]:
+                        viol.add("C15", "hardware_short_lived_circuits", "mismatch", "", "one-qubit circuit read %r views %r" % (item[1], item[2]))
+                        break
+                else:
+                    if item[1] != hist[("A", plan["hw_encoding"])] or any(x != 2**n for x in item[2]):
+                        viol.add("C15", "hardware_short_lived_circuits", "mismatch", "", "the run's own circuit, freshly parsed and dropped")
+                        break
+            probe("short_lived_circuits")
     if all(hist.get(("A", e)) is not None for e in ("int", "str", "mixed")):
         probe("hw_three_encodings")
         if not (hist[("A", "int")] == hist[("A", "str")] == hist[("A", "mixed")]):
